@@ -156,7 +156,7 @@ def core(ctx, chk):
         lo = mk_app("max", [Const(0), mk_app("min", [sub(N, Const(1)), mk_app("floor", [tau])])])
         hi = mk_app("max", [Const(0), mk_app("min", [sub(N, Const(1)), mk_app("ceil", [tau])])])
         for method in METHODS:
-            outs = ctx.explore(lambda: ctx.ev.call(fn, [S, RHO, Const(lc), Const(method)], {}), chk)
+            outs = ctx.explore(lambda: ctx.call_named(fn, [("scores", S), ("target_ratio", RHO), ("left_continuous", Const(lc)), ("method", Const(method))]), chk)
             rets = returns(outs)
             inst = "%s:%s" % ("left-continuous" if lc else "right-continuous", method)
             if len(rets) != 1 or rets[0].unmodelled:
